@@ -131,6 +131,11 @@ func runC10(tier string, seed uint64, o *Out) error {
 	if err := sessionLine(o, "C10", nwCfg{1000, 500, 0}, early, "corpus"); err != nil {
 		return err
 	}
+	ff := []wop{{kind: 'A', id: 1, ts: 1000, key: "1"}, {kind: 'A', id: 2, ts: 1100, key: "1"}, {kind: 'A', id: 3, ts: harnessBase + int64(100*time.Hour), key: "1"},
+		{kind: 'A', id: 4, ts: 60000, key: "2"}, {kind: 'X'}, {kind: 'A', id: 5, ts: 90000, key: "99"}, {kind: 'X'}}
+	if err := sessionLine(o, "C10", nwCfg{1000, 0, 0}, ff, "corpus"); err != nil {
+		return err
+	}
 	for i := 0; i < ncases; i++ {
 		c := nwCfg{timeout: []int64{2, 10, 1000, int64(time.Second)}[rng.Intn(4)]}
 		c.ooo = []int64{0, c.timeout / 2, 3 * c.timeout}[rng.Intn(3)]
